@@ -19,6 +19,7 @@ fn base_plan(first: Vec<Place>) -> Plan {
         drops: 0,
         hello: sched::default_hello(),
         reply_pad: vec![],
+        fail_after_write: vec![],
     }
 }
 
@@ -68,7 +69,9 @@ fn check(plan: &Plan, ex: &Execution, c18: bool) -> Vec<(String, String)> {
     if distinct.len() != ex.ids.len() {
         v.push(("duplicate-message-id".into(), format!("message-ids on the wire: {:?}", ex.ids)));
     }
-    let bogus = plan.extra.len();
+    // a request whose send failed after the write is forgotten by the client but answered by the
+    // server: that answer matches no outstanding request, like an unknown-id reply
+    let bogus = plan.extra.len() + plan.fail_after_write.len();
     let mut errs = 0usize;
     let mut returned_tags: Vec<&str> = Vec::new();
     let blocked_forever = ex.sent.len() < 1 + ex.ids.len(); // never (hello + rpcs all on the wire)
@@ -122,6 +125,7 @@ fn check(plan: &Plan, ex: &Execution, c18: bool) -> Vec<(String, String)> {
                     ));
                 }
             }
+            Outcome::SendErr(_) if plan.fail_after_write.contains(&(i + 1)) => {}
             Outcome::SendErr(e) => v.push(("send-error".into(), format!("rpc() #{i} failed: {e}"))),
             Outcome::Unresolved => {
                 // all replies delivered (undelivered == 0), every task polled after its last wake
@@ -178,6 +182,14 @@ fn gen_plan(r: &mut Prng, c18: bool) -> Plan {
             if r.chance(1, 2) {
                 plan.block_after_write.push(a);
             }
+        }
+    }
+    // a send that fails although the request went out (write done, flush timed out); the caller
+    // carries on with the session and the server answers the request it received
+    if r.chance(1, 8) && total >= 2 {
+        let a = r.range(1, total);
+        if !plan.block_sends.contains(&a) {
+            plan.fail_after_write.push(a);
         }
     }
     // large replies (a configuration dump runs to megabytes): behaviour must not depend on size
@@ -335,6 +347,14 @@ pub fn run(cfg: &Cfg, c18: bool) -> i32 {
                     plans.push((format!("n{n}-{place:?}-large-first-reply"), big.clone()));
                     big.reply_pad = vec![300, 70_000];
                     plans.push((format!("n{n}-{place:?}-large-second-reply"), big));
+                }
+                if n >= 2 && !c18 {
+                    // a send that fails after the request went out; the server answers it all the same
+                    for a in 1..n {
+                        let mut f = p.clone();
+                        f.fail_after_write = vec![a];
+                        plans.push((format!("n{n}-{place:?}-send-{a}-fails-after-write"), f));
+                    }
                 }
                 if n <= 2 {
                     // with the last rpc's send blocked: exposes the suspension point between
